@@ -27,6 +27,42 @@ def nd_ranges():
     return _ND
 
 
+_CAT = {}
+
+
+def cat_ranges(letter):
+    """code points matching \\s / \\w / \\d for str patterns, read off the interpreter's own `re` (trusted)"""
+    if letter not in _CAT:
+        rx = re.compile('\\' + letter)
+        out, start = [], None
+        for c in range(0x110000):
+            m = rx.fullmatch(chr(c)) is not None
+            if m and start is None:
+                start = c
+            if not m and start is not None:
+                out.append((start, c - 1)); start = None
+        if start is not None:
+            out.append((start, 0x10FFFF))
+        _CAT[letter] = out
+    return _CAT[letter]
+
+
+def compl(rs):
+    out, prev = [], 0
+    for a, b in sorted(rs):
+        if a > prev:
+            out.append((prev, a - 1))
+        prev = max(prev, b + 1)
+    if prev <= 0x10FFFF:
+        out.append((prev, 0x10FFFF))
+    return out
+
+
+CATEGORY = {'CATEGORY_DIGIT': lambda: nd_ranges(), 'CATEGORY_SPACE': lambda: cat_ranges('s'), 'CATEGORY_WORD': lambda: cat_ranges('w'),
+            'CATEGORY_NOT_DIGIT': lambda: compl(nd_ranges()), 'CATEGORY_NOT_SPACE': lambda: compl(cat_ranges('s')),
+            'CATEGORY_NOT_WORD': lambda: compl(cat_ranges('w'))}
+
+
 def rng(l):
     return '[' + ', '.join('(%d, %d)' % (a, b) for a, b in l) + ']'
 
@@ -59,8 +95,8 @@ def conv_item(op, arg):
                 rs.append((a, a))
             elif on == 'RANGE':
                 rs.append((a[0], a[1]))
-            elif on == 'CATEGORY' and str(a) == 'CATEGORY_DIGIT':
-                rs.extend(nd_ranges())
+            elif on == 'CATEGORY' and str(a) in CATEGORY:
+                rs.extend(CATEGORY[str(a)]())
             else:
                 raise ValueError('unsupported class item %s %s' % (o, a))
         return ('SRE.cls true %s' if neg else 'SRE.cls false %s') % rng(rs)
@@ -79,8 +115,8 @@ def conv_item(op, arg):
             return 'SRE.eps'
         raise ValueError('unsupported anchor %s' % arg)
     if name == 'CATEGORY':
-        if str(arg) == 'CATEGORY_DIGIT':
-            return 'SRE.cls false %s' % rng(nd_ranges())
+        if str(arg) in CATEGORY:
+            return 'SRE.cls false %s' % rng(CATEGORY[str(arg)]())
     raise ValueError('unsupported regex construct %s %r' % (op, arg))
 
 
